@@ -617,6 +617,16 @@ class _Synonyms(ast.NodeTransformer):
         # f(*(generator)) == f(*[list comprehension]): the arguments are unpacked eagerly either way
         node.args = [ast.copy_location(ast.Starred(value=ast.ListComp(elt=a.value.elt, generators=a.value.generators), ctx=ast.Load()), a)
                      if isinstance(a, ast.Starred) and isinstance(a.value, ast.GeneratorExp) else a for a in node.args]
+        # f(*[a, b]) / f(*(a, b)) with a literal display == f(a, b)
+        if any(isinstance(a, ast.Starred) and isinstance(a.value, (ast.List, ast.Tuple)) and not any(isinstance(e, ast.Starred) for e in a.value.elts)
+               for a in node.args):
+            flat = []
+            for a in node.args:
+                if isinstance(a, ast.Starred) and isinstance(a.value, (ast.List, ast.Tuple)) and not any(isinstance(e, ast.Starred) for e in a.value.elts):
+                    flat.extend(a.value.elts)
+                else:
+                    flat.append(a)
+            node.args = flat
         if d == "sorted" and len(node.args) == 1 and not node.keywords and isinstance(node.args[0], ast.Call) and _dotted(node.args[0].func) == "set" \
                 and len(node.args[0].args) == 1:
             node.args[0] = ast.copy_location(ast.Call(func=ast.Name(id="list", ctx=ast.Load()), args=[node.args[0]], keywords=[]), node.args[0])
